@@ -3,9 +3,11 @@
 
    Identifiers.  Element ids, anchors and the ids listed in order transforms are JSON
    scalars: [IInt z], [IStr s] or [INone] (null), compared like Python compares them
-   (an int never equals a string).  [py_int] is Python's int(str) restricted to an
-   optional sign followed by ASCII digits; [py_str] is str(int); [lower] is str.lower()
-   on ASCII.
+   (an int never equals a string).  [py_int] is Python's int(str) on ASCII strings: blanks
+   (space, \t \n \v \f \r) around are ignored, then an optional sign, then ASCII digits
+   (leading zeros allowed) with single underscores allowed between two digits; not
+   modelled: non-ASCII digits / blanks ('\u0663', '\xa0') and the 4300 digit limit.
+   [py_str] is str(int); [lower] is str.lower() on ASCII.
 
    Anchored order.  [base] is the list of base elements in the order they are to appear
    (payload order, or the explicit order), each as (payload index, element id).
@@ -81,18 +83,25 @@ Definition py_str_Z (z : Z) : string := NilZero.string_of_int (Z.to_int z).
 Definition py_str (a : ident) : string :=
   match a with IInt z => py_str_Z z | IStr s => s | INone => "None" end.
 
-(* int(str): optional sign, then one or more ASCII digits (leading zeros allowed) *)
+(* int(str) on ASCII strings: blanks around are dropped (Py_ISSPACE: 9..13 and 32), then an
+   optional sign, then one or more ASCII digits (leading zeros allowed); a single "_" may
+   separate two digits ("1_0" = 10; "_1", "1_", "1__0", "+_1" are errors); nothing may
+   stand between the sign and the first digit ("+ 3" is an error) *)
 Definition digit_of (c : ascii) : option Z :=
   let n := Z.of_nat (nat_of_ascii c) in
   if ((48 <=? n) && (n <=? 57))%Z then Some (n - 48)%Z else None.
-Fixpoint digits (s : string) (acc : Z) : option Z :=
+(* [after_digit]: the previous character was a digit (so "_" or the end may follow) *)
+Fixpoint digits (s : string) (acc : Z) (after_digit : bool) : option Z :=
   match s with
-  | EmptyString => Some acc
-  | String c r => match digit_of c with Some d => digits r (10 * acc + d)%Z | None => None end
+  | EmptyString => if after_digit then Some acc else None
+  | String c r =>
+      match digit_of c with
+      | Some d => digits r (10 * acc + d)%Z true
+      | None => if Ascii.eqb c "_"%char && after_digit then digits r acc false else None
+      end
   end.
-Definition unsigned_int (s : string) : option Z :=
-  match s with EmptyString => None | _ => digits s 0%Z end.
-Definition py_int (s : string) : option Z :=
+Definition unsigned_int (s : string) : option Z := digits s 0%Z false.
+Definition signed_int (s : string) : option Z :=
   match s with
   | String c r =>
       if Ascii.eqb c "-"%char then option_map Z.opp (unsigned_int r)
@@ -100,6 +109,23 @@ Definition py_int (s : string) : option Z :=
       else unsigned_int s
   | EmptyString => None
   end.
+Definition is_blank (c : ascii) : bool :=
+  let n := nat_of_ascii c in ((9 <=? n) && (n <=? 13)) || (n =? 32).
+Fixpoint lstrip (s : string) : string :=
+  match s with
+  | String c r => if is_blank c then lstrip r else s
+  | EmptyString => EmptyString
+  end.
+Fixpoint rstrip (s : string) : string :=
+  match s with
+  | String c r =>
+      match rstrip r with
+      | EmptyString => if is_blank c then EmptyString else String c EmptyString
+      | r' => String c r'
+      end
+  | EmptyString => EmptyString
+  end.
+Definition py_int (s : string) : option Z := signed_int (rstrip (lstrip s)).
 
 (* str.lower() on ASCII *)
 Definition lower_ascii (c : ascii) : ascii :=
